@@ -41,6 +41,36 @@ CHECKS = {
    note='Trusted: Coq kernel; translator templates for the DjangoCache methods and the get_backend_timeout chain; hand-written dictionary semantics of the FanoutCache methods (bk_* in model/Django.v) and the BaseCache-inherited methods, validated per call; stdlib DecimalZ for the decimal printer. Assumptions: single client (no Timeout; retry defaults belong to C14), clock never runs backwards, size_limit never reached, integer values and versions. Shard routing is C13.',
    tech='Coq proof (injectivity by list splitting, refinement via a frame lemma over injective key making, induction over histories) + generated model + differential three-way monitor',
    ref='7 (C19)'),
+ 'C11': dict(
+   cat='proof',
+   text='Refinement theorems (every op, every index i:Z, every rotate n:Z, histories of any length) of a Deque model that calls definitions regenerated from persistent.py on every run, against a list specification of collections.deque; length<=maxlen, persistence of contents and maxlen through reopen/copy/pickle, never-loses (multiset), and exactly-once FIFO delivery over all interleavings of atomic calls. Tie: fail-closed AST translator (66 bridge lemmas) + three-way differential run (Deque vs collections.deque vs Coq model and spec, results/contents/queue keys after every call) + COMMIT-linearised replay of scheduled producer/consumer runs through the model.',
+   note='Trusted: Coq kernel; abstract queue cache (the C10/C03 interface, checked incl. keys by correspondence), translator templates, value encoding; atomicity of one Deque call assumed (C05/C06); Sequence mixins (index, in) monitored but not modelled; d.maxlen=None excluded (setter raises TypeError after storing None: outside collections.deque vocabulary).',
+   tech='Coq refinement proof by induction/case analysis + generated model + differential testing + deterministic scheduler',
+   ref='7 (C11)'),
+ 'C12': dict(
+   cat='proof',
+   text='Index model (calls generated definitions) proved equal to an OrderedDict specification for every mapping op on caches with distinct keys; persistence; never-loses; concurrent clause on a micro-step machine: full statement refuted by a vm_compute witness (= finding C12-F1, replayed deterministically on the implementation), strongest true restriction proved for all schedules and any number of writers (a lookup fails only if a writer removed the file between the SELECT and the open; never for inline values). Tie: translator + three-way differential run + machine-vs-implementation outcome comparison on random schedules + witness replay.',
+   note='Trusted: Coq kernel; keys restricted to those where cache key identity equals Python == (no bool next to 0/1, no tuples differing only in numeric typing); atomicity of single Index calls from C05/C06; the concurrent machine covers one key, one lookup, replacing writers.',
+   tech='Coq refinement proof + micro-step invariant over all schedules + generated model + differential testing + deterministic scheduler',
+   ref='7 (C12)'),
+ 'C13': dict(
+   cat='proof',
+   text='Theorems over the FanoutCache table regenerated from fanout.py: for every key identity, shard count n>=1 and operation sequence whose routing respects key identity, every key-addressed call returns what one dictionary returns, the shards always hold exactly that dictionary (split/merge), len/volume/stats are sums, clear/expire/evict/cull/check/iteration visit each shard exactly once, transact locks shards in order; routing is a closed function of Disk.put; key_eq => same shard refuted (1/1.0, 0/0.0/-0.0 = C13-F1) with the strongest restriction proved; per-shard limit = total/shards over Q. Tie: translator + model hash/shard/dir/limit/adler32 and whole-history runs compared with the implementation + monitors (reference dictionary, single Cache, shard directories, 4 fresh interpreters with different hash seeds, recorded routing fixture).',
+   note='Trusted: Coq kernel; dictionary-with-expiry standing for one Cache (C03); utf8/pack(!d)/pickle as data; timeouts inside _remove injected at the shard-method boundary (real lock timeouts: C14). Comparison with one cache runs with cull_limit 0. C13-F2 (hash-seed-dependent pickles) is outside the codec premise.',
+   tech='Coq proof (simulation by split = per-shard filter, induction over histories; finite case analysis over the generated table) + generated model + differential histories + cross-process routing fixture',
+   ref='7 (C13)'),
+ 'C15': dict(
+   cat='proof',
+   text='Coq proof over an atomic-layer state machine for any number of clients, any programs, any schedule: Lock/RLock mutual exclusion, RLock depth/owner/refusal, BoundedSemaphore permit conservation and bound, refusal at full value, step-level progress, barrier runs the function under the lock. Guards, stored values and cache-method names regenerated from recipes.py each run. Partial: no liveness under contention; Lock and Semaphore theorems assume contenders release only what they hold (proved necessary); atomicity of cache ops and transact blocks assumed (C05/C06); processes exercised free-running in the thorough tier only.',
+   note='Trusted: Coq kernel; templates in emit_recipes.py; the atomic-step mapping in c15.py (commit of the key shard as linearization point); the scheduler.',
+   tech='Coq inductive invariants over all schedules + generated definitions + schedule-driven differential testing with an independent witness monitor',
+   ref='7 (C15)'),
+ 'C20': dict(
+   cat='proof',
+   text='Averager ledger invariant for all interleavings of adds/gets/pops (stored total/count = sum/number of completed adds since the last pop); throttle token-bucket rate bound over Q for all arrival patterns and any number of callers (starts in any window [t,t+W] <= count + count/seconds*W), bucket invariant, lone-caller progress. Partial: no liveness under contention (starvation observed and not claimed); binary64 rounding not modelled (harness uses exact values, every tally compared exactly); monotone clock, count >= 1.',
+   note='Trusted: Coq kernel (QArith/lra, closed under the global context); templates in emit_recipes.py; atomicity of transact blocks (C06); start timestamps taken at admission (no scheduling delay between admission and start).',
+   tech='Coq inductive invariants + potential-function argument over Q + generated definitions + schedule-driven differential testing',
+   ref='7 (C20)'),
 }
 
 def main():
